@@ -118,6 +118,15 @@ fn main() {
             let ctx = make_ctx(&property);
             let mut rep = Report::default();
             let t0 = Instant::now();
+            // C09 / C10 run their cases in supervised worker processes with a per-case watchdog
+            if property != "C09" && property != "C10" {
+                let tier = if ctx.thorough() { "thorough" } else { "quick" };
+                start_watchdog(
+                    format!("{property} [{}:{}]", ctx.config, ctx.profile),
+                    out.clone(),
+                    json!({"property_id": property, "config": ctx.config, "profile": ctx.profile, "tier": tier, "seed": ctx.seed}),
+                );
+            }
             run(&ctx, &mut rep);
             let wall = t0.elapsed().as_secs_f64();
             let v = rep.to_json(&ctx, wall);
